@@ -63,6 +63,19 @@ def make_cases(rng, tier, diff_here):
         for e in ["ExecuteNSortMConcurrent", "ExecuteNConcurrentMSort", "ExecuteNConcurrentMConcurrent"]:
             cases.append(base(e, rules, n=1, m=1))
             cases.append(base(e, rules, n=1, m=0))
+    # the SELECTED mix / inverse-mix variants, systematically: selections of 1-4 of 5 rules (permuted, also thinned down by an unknown
+    # name), every single failing rule of the selection, the head / the tail held
+    for e in ("ExecuteSelectedRulesMixModel", "ExecuteSelectedRulesInverseMixModel"):
+        for k in (1, 2, 3, 4):
+            for f in [()] + [(i,) for i in range(k)]:
+                for unknown in (False, True):
+                    rules = rules_with_failing(5, f)
+                    names = NAMES[:k]
+                    rng.shuffle(names)
+                    if unknown:
+                        names.insert(rng.randrange(len(names) + 1), "zz")
+                    hold = "" if k == 1 else (NAMES[0] if "Inverse" not in e else NAMES[rng.randrange(k - 1)])
+                    cases.append(base(e, rules, names=list(names), hold=hold))
     # invalid parameters
     for e in NM:
         for (n, m) in [(0, 1), (1, 0), (-1, 2), (3, 2), (2, 3)]:
@@ -97,7 +110,7 @@ def make_cases(rng, tier, diff_here):
 
 
 RULE = ("systematic: rule sets of size 2-4 (thorough 2-6) with saliences 9,8,.. x every split n+m<=size x failing subsets of size <=1 (thorough <=2) x both flags x one held rule, "
-        "for the three N-M models; mix / inverse-mix with each failing subset and the first / an early / the last rule held; invalid (n,m); selected N-M with permuted, unknown, repeated and miscounted names (also name lists exactly as long as the rule set that are not a permutation of it); "
+        "for the three N-M models; mix / inverse-mix with each failing subset and the first / an early / the last rule held; the selected mix / inverse-mix variants on selections of 1-4 of 5 rules (permuted, with an unknown name) x every single failing rule; invalid (n,m); selected N-M with permuted, unknown, repeated and miscounted names (also name lists exactly as long as the rule set that are not a permutation of it); "
         "random: 150 (thorough 4000) calls over the 10 entry points with ties, negative saliences and random holds.")
 
 
